@@ -89,7 +89,25 @@ def install(pe):
     E[N + "outer"] = lambda pe, a, k: _outer(pe, a[0], a[1])
     E[N + "dot"] = lambda pe, a, k: _dot(pe, a[0], a[1])
     E[N + "matmul"] = lambda pe, a, k: matmul(_asarr(pe, a[0]), _asarr(pe, a[1]), pe.s_add, pe.s_mul)
-    E[N + "einsum"] = lambda pe, a, k: einsum(a[0], [_asarr(pe, x) for x in a[1:]], pe.s_add, pe.s_mul)
+    def _einsum(pe, a, k):
+        res = einsum(a[0], [_asarr(pe, x) for x in a[1:]], pe.s_add, pe.s_mul)
+        out = k.get("out")
+        if out is not None:  # numpy writes into the given array and returns it (aliasing is preserved)
+            out[...] = res
+            return out
+        return res
+
+    E[N + "einsum"] = _einsum
+    E[N + "empty_like"] = lambda pe, a, k: Arr.full(_asarr(pe, a[0]).shape, 0)
+
+    def _swapaxes(pe, a, k):
+        x = _asarr(pe, a[0])
+        ax = list(range(len(x.shape)))
+        i, j = a[1], a[2]
+        ax[i], ax[j] = ax[j], ax[i]
+        return x.transpose(*ax)
+
+    E[N + "swapaxes"] = _swapaxes
     E[N + "sum"] = lambda pe, a, k: _npsum(pe, a, k)
     E[N + "prod"] = lambda pe, a, k: _npprod(pe, a, k)
     E[N + "trace"] = lambda pe, a, k: _sum(pe, [_asarr(pe, a[0])[i, i] for i in range(_asarr(pe, a[0]).shape[0])], 0)
